@@ -144,10 +144,137 @@ def scenario(run, e4, sc):
         srv.cleanup()
 
 
+def requeue_scenario(run, e4, sc):
+    """Three clients are served and idle on keep-alive one behind the other (B, A, C); A and C send another request on the same
+    connection before B's keep-alive time is over and idle again; all idle out and are closed by the server; then more clients than
+    worker_connections connect and stay silent.  Observed: when the server closes each connection, the worker's socket count back
+    at its baseline, and never more than worker_connections client sockets in the worker."""
+    v = []
+    info = {}
+    KA, WC = 2, 6
+    srv = e4.Server("c13q", worker_class="gthread", workers=1,
+                    settings={"threads": 2, "worker_connections": WC, "keepalive": KA, "timeout": 30, "graceful_timeout": 2}, bind=sc["bind"])
+    lag = e4.LagProbe()
+    lag.start()
+    socks = []
+    try:
+        srv.start()
+        w = srv.wait_workers(1, 25)
+        if not w or not srv.wait_listening(5):
+            return v, "server did not boot", info
+        wpid = w[0]
+        time.sleep(0.3)
+        base = wait_count(wpid, nsockets(wpid), 0.5)
+        info["baseline_sockets"] = base
+        t_send, t_resp = {}, {}
+
+        def ask(name, s):
+            t_send[name] = time.monotonic()
+            r = e4.request(srv.addr, "/pid", sock=s, close=False, timeout=5)
+            t_resp[name] = time.monotonic()
+            if r["outcome"] != "ok":
+                return "request on connection %s failed: %s" % (name, r["outcome"])
+            if b"connection: close" in r["data"].lower():
+                return "not kept alive"
+            return None
+
+        conns = {}
+        for name in ("B", "A", "C"):
+            conns[name] = e4.connect(srv.addr, 5)
+            socks.append(conns[name])
+            why = ask(name, conns[name])
+            if why:
+                return v, "first request on connection %s: %s" % (name, why), info
+        t_first = t_resp["B"]
+        time.sleep(0.25)
+        told_close = set()
+        for name in ("A", "C"):
+            why = ask(name, conns[name])
+            if why == "not kept alive":
+                told_close.add(name)        # the server's right; it closes this one itself, at once
+            elif why:
+                return v, why, info
+        info["second_response_said_close"] = sorted(told_close)
+        if len(told_close) == 2:
+            return v, "no connection was kept alive after its second request", info
+        if time.monotonic() - t_first > KA - 0.4:
+            return v, "too slow: the second requests were not answered well before the first connection's keep-alive time was over", info
+        info["second_requests_after"] = round(time.monotonic() - t_first, 2)
+        for name in ("B", "A", "C"):
+            s = conns[name]
+            s.settimeout(KA + 8)
+            try:
+                d = s.recv(100)
+                now = time.monotonic()
+                if d:
+                    v.append(("bytes-on-idle-keepalive-connection", repr(d[:60])))
+                    continue
+                info.setdefault("keepalive_close_after", {})[name] = round(now - t_resp[name], 2)
+                if name in told_close:
+                    continue
+                if now - t_send[name] < KA - 0.05:
+                    # counted from the moment the request was SENT: the response, and with it the idle period, began later
+                    v.append(("keepalive-closed-early", "server closed idle keep-alive connection %s %.2f s after its last request was "
+                              "sent, keepalive=%d" % (name, now - t_send[name], KA)))
+                elif now - t_resp[name] > KA + 2.5:
+                    if lag.max_lag(since=t_resp[name]) > 0.5:
+                        return v, "late keep-alive close but scheduling lag %.2f" % lag.max_lag(since=t_resp[name]), info
+                    v.append(("keepalive-not-reaped", "idle keep-alive connection %s closed %.2f s after its last response, keepalive=%d" % (
+                        name, now - t_resp[name], KA)))
+            except socket.timeout:
+                v.append(("keepalive-not-reaped", "idle keep-alive connection %s still open %d s after its last response" % (name, KA + 8)))
+            except OSError:
+                pass
+        for s in conns.values():
+            s.close()
+        n = wait_count(wpid, base, 4.0)
+        if n != base:
+            v.append(("connections-left-open-after-clients-left", "%s sockets in the worker, baseline %d, after the keep-alive connections "
+                      "idled out and their clients left" % (n, base)))
+            return v, None, info
+        # more silent clients than worker_connections
+        for _ in range(WC + 3):
+            socks.append(e4.connect(srv.addr, 5))
+        t0 = time.monotonic()
+        seen = nsockets(wpid) or 0
+        while seen < base + WC and time.monotonic() - t0 < 8:
+            time.sleep(0.05)
+            seen = max(seen, nsockets(wpid) or 0)
+        t1 = time.monotonic()
+        while time.monotonic() - t1 < 1.0:
+            time.sleep(0.05)
+            seen = max(seen, nsockets(wpid) or 0)
+        info["client_sockets_with_%d_silent_clients" % (WC + 3)] = seen - base
+        if seen > base + WC:
+            v.append(("capacity-exceeded", "%d silent clients connected after three keep-alive connections had idled out (two of them "
+                      "served a second request while an older one was idle): the worker holds %d client sockets, worker_connections=%d" % (
+                          WC + 3, seen - base, WC)))
+        elif seen < base + WC:
+            return v, "only %d of %d silent clients were accepted within 9 s" % (seen - base, WC), info
+        else:
+            run.count("live_requeue_then_capacity_checks")
+        if not e4.alive(wpid):
+            v.append(("worker-died", srv.error_log()[-300:]))
+        return v, None, info
+    finally:
+        lag.stop_flag = True
+        for s in socks:
+            try:
+                s.close()
+            except OSError:
+                pass
+        srv.cleanup()
+
+
 def plan(run, tier, seed):
     run.require("live_keepalive_timing_checks", "live_back_to_zero_checks")
     n = 2 if tier == "quick" else 8
     out = [{"kind": "live", "scenario": {"bind": "tcp" if i % 2 == 0 else "unix", "idx": i}, "seed": seed, "tier": tier} for i in range(n)]
+    # keep-alive connections queued one behind the other, re-used out of order, idling out; then more clients than worker_connections
+    run.require("live_requeue_then_capacity_checks")
+    for j in range(1 if tier == "quick" else 4):
+        out.append({"kind": "live", "scenario": {"requeue": True, "bind": "tcp" if (seed + j) % 2 == 0 else "unix", "idx": "requeue-%d" % j},
+                    "seed": seed, "tier": tier})
     # TLS with the handshake in the worker's main loop (do_handshake_on_connect): peers that fail or abandon the handshake
     run.require("live_tls_handshake_inputs", "live_tls_served_then_lingering_clients")
     out.append({"kind": "live", "scenario": {"tls": True, "bind": "tcp", "idx": n, "n": 27 if tier == "quick" else 180}, "seed": seed, "tier": tier})
@@ -171,7 +298,7 @@ def shard(run, sh):
         return
     reason = None
     for attempt in range(3):
-        v, reason, info = scenario(run, e4, sc)
+        v, reason, info = (requeue_scenario if sc.get("requeue") else scenario)(run, e4, sc)
         if reason is None or v:
             break
     run.case(("live", sc["bind"], sc["idx"]))
@@ -188,6 +315,6 @@ def shard(run, sh):
 
 def replay_case(run, c):
     from vlib import e4_live as e4
-    v, reason, info = scenario(run, e4, c["live"])
+    v, reason, info = (requeue_scenario if c["live"].get("requeue") else scenario)(run, e4, c["live"])
     print("info:", info, "inconclusive:", reason)
     return v
